@@ -297,6 +297,11 @@ inductive Rhs
   | amap (elems : List (Bytes × Bytes))
 deriving Repr, Inhabited
 
+/-- `as.Value != nil` with a non-empty word. -/
+def Rhs.isStr : Rhs → Bool
+  | .str _ => true
+  | _ => false
+
 inductive ValType | dflt | a | A | n
 deriving DecidableEq, Repr, Inhabited
 
@@ -375,10 +380,13 @@ def appendIndexed (g : Grows) (h : Heap) (prev : Var) (s : Bytes) : Option (Heap
 
 /-- `Runner.assignVal`.  `fx = true`: clone before `+=` (the code as it is); `fx = false`: pinned. -/
 def assignVal (fx : Bool) (g : Grows) (h : Heap) (prev : Var) (append : Bool) (rhs : Rhs)
-    (vt : ValType) : Option (Heap × Var) :=
+    (vt : ValType) (hasIdx : Bool := false) : Option (Heap × Var) :=
   match rhs with
   | .str s =>
     if !append then some (h, { prev with set := true, kind := if vt == .n then .nameRef else .string, str := s })
+    else if hasIdx && prev.kind != .associative then
+      -- name[i]+=s: setVarWithIndex appends s to the element at index i
+      some (h, { prev with set := true, kind := .string, str := s })
     else match prev.kind with
       | .string | .unknown => some (h, { prev with set := true, kind := .string, str := prev.str ++ s })
       | .indexed =>
@@ -421,12 +429,23 @@ def idxKey : Idx → Bytes
   | .int k => intText k
   | _ => []
 
-/-- The tail of `setVarWithIndex` for indexed storage: resolve a negative index, set, store. -/
+/-- `name[k]+=value`: the current value of that element (if any) followed by `val`. -/
+def appendedVal (h : Heap) (list indexes : Slice) (k : Nat) (val : Bytes) : Bytes :=
+  if !indexes.isNil then
+    if (searchIdx (cells h.ints indexes) k).2 then
+      (sliceGet? h.strs list (searchIdx (cells h.ints indexes) k).1).getD [] ++ val
+    else val
+  else if k < list.len then (sliceGet? h.strs list k).getD [] ++ val
+  else val
+
+/-- The tail of `setVarWithIndex` for indexed storage: resolve a negative index, (append,) set,
+    store. -/
 def setIndexedVar (g : Grows) (r : Runner) (h : Heap) (prev : Var) (name : Bytes) (k : Int) (val : Bytes)
-    (list indexes : Slice) : Option Heap :=
+    (list indexes : Slice) (appendElem : Bool := false) : Option Heap :=
   if resolveIdx h list indexes k < 0 then some h
   else
-    match setIndexedElem g h list indexes (resolveIdx h list indexes k).toNat val with
+    match setIndexedElem g h list indexes (resolveIdx h list indexes k).toNat
+        (if appendElem then appendedVal h list indexes (resolveIdx h list indexes k).toNat val else val) with
     | none => none
     | some x => setVar r x.1 name { prev with set := true, kind := .indexed, list := x.2.1, indexes := x.2.2 }
 
@@ -438,17 +457,17 @@ def cloneOrMake (ms : MapHeap Bytes Bytes) (m : Option Nat) : MapHeap Bytes Byte
 
 /-- `Runner.setVarWithIndex`. -/
 def setVarWithIndex (g : Grows) (r : Runner) (h : Heap) (prev : Var) (name : Bytes) (idx : Idx)
-    (vr : Var) : Option Heap :=
+    (vr : Var) (appendElem : Bool := false) : Option Heap :=
   match effIdx prev vr idx with
   | .none => setVar r h name vr
   | i =>
     match prev.kind with
     | .string =>
       setIndexedVar g r { h with strs := (sliceAppend g.strs h.strs Slice.nil prev.str).1 } prev name (idxInt i) vr.str
-        (sliceAppend g.strs h.strs Slice.nil prev.str).2 Slice.nil
+        (sliceAppend g.strs h.strs Slice.nil prev.str).2 Slice.nil appendElem
     | .indexed =>
       setIndexedVar g r (cloneBoth g h prev.list prev.indexes).1 prev name (idxInt i) vr.str
-        (cloneBoth g h prev.list prev.indexes).2.1 (cloneBoth g h prev.list prev.indexes).2.2
+        (cloneBoth g h prev.list prev.indexes).2.1 (cloneBoth g h prev.list prev.indexes).2.2 appendElem
     | .associative =>
       -- `index.(*syntax.Word)`: a negative literal parses as a unary expression → silent return
       if idxInt i < 0 then some h
@@ -456,7 +475,7 @@ def setVarWithIndex (g : Grows) (r : Runner) (h : Heap) (prev : Var) (name : Byt
         setVar r { h with maps := updMap (cloneOrMake h.maps prev.map).1 (cloneOrMake h.maps prev.map).2
                                     fun m => aset m (idxKey i) vr.str }
           name { prev with set := true, map := some (cloneOrMake h.maps prev.map).2 }
-    | _ => setIndexedVar g r h prev name (idxInt i) vr.str Slice.nil Slice.nil
+    | _ => setIndexedVar g r h prev name (idxInt i) vr.str Slice.nil Slice.nil appendElem
 
 /-- Subscript of `unset 'name[sub]'`. -/
 inductive Sub | all | int (k : Int)
@@ -569,10 +588,12 @@ def mapOrMake {ν : Type} (ms : MapHeap Bytes ν) : Option Nat → MapHeap Bytes
 /-- One operation on a runner.  `none` = Go panic. -/
 def step (fx : Bool) (g : Grows) (h : Heap) (r : Runner) : Op → Option (Heap × Runner)
   | .assign name idx append rhs =>
-    match assignVal fx g h { lookupVar r h name with isLocal := false } append rhs .dflt with
+    match assignVal fx g h { lookupVar r h name with isLocal := false } append rhs .dflt (idx != .none) with
     | none => none
     | some a =>
-      match setVarWithIndex g r a.1 { lookupVar r h name with isLocal := false } name idx a.2 with
+      -- appendElem = as.Append && as.Value != nil && vr.Kind == expand.String
+      match setVarWithIndex g r a.1 { lookupVar r h name with isLocal := false } name idx a.2
+          (append && rhs.isStr && a.2.kind == .string) with
       | none => none
       | some h' => some (h', r)
   | .decl v x ro gl vt name naked append rhs =>
